@@ -31,6 +31,17 @@ CLAIMED = {
  'C16': dict(text='protect_html: z3 regular-language obligations on the patterns read from the real function (each matches exactly one special character) + exhaustive symbolic choice over alphabet^2; generate_html: two matches with symbolic offset, distance, lengths and unbounded context size on sources with HTML-special characters; report parsed with html.parser and compared with the source lines, highlighted spans and allowed markup.',
    note='Trusted: CrossHair+z3, html.parser as reference decoder. Bound: 4 sources <= 4 lines, 2 matches, lengths <= 3.',
    technique='z3 regex obligations + symbolic execution of generate_html with symbolic match geometry', ref='DESIGN.md 4/C16'),
+ 'C17': dict(text='History is symbolic: two scenario indices chosen by the solver are filtered before the scenario under test, whose result must equal that of a fresh interpreter; key-collision sketches (glossary label, macro name, environment name, language name with a symbolic hole) after a defining document; mutable module-level state compared before/after; server handler with symbolic request fields against a fresh server object.',
+   note='Trusted: CrossHair+z3; fresh = new interpreter process. Bound: 17 scenarios, histories of length <= 2 (longer ones follow inductively from state invariance + determinism, which are both checked), key holes <= 2 letters.',
+   technique='symbolic execution with symbolic history / key; comparison with a fresh interpreter', ref='DESIGN.md 4/C17'),
+ 'C18': dict(text='Bounded model check of the real --include work list (AST slice of shell.py) with the inclusion relation as a symbolic bit vector over n <= 3 files (every graph), name styles, duplicates and skip patterns against the reference BFS closure incl. termination bound; extraction lists over sketches with a symbolic hole in the extracted argument and listed macros in comments / skipped regions / verbatim; macros with several mandatory arguments.',
+   note='Trusted: CrossHair+z3; file system stubbed (content of a file = its inclusion list). Bound: n <= 3 (thorough 4).',
+   technique='bounded model checking of the sliced work-list code with a symbolic graph; symbolic holes for extraction', ref='DESIGN.md 4/C18'),
+ 'C19': dict(text='Document family + special documents with symbolic surrounding offsets under option unkn: output must be the expected names once each in order of first use; macro name with a symbolic hole decided by the solver against every key of the macro tables (text / maths / argument / after a definition).',
+   note=N_OFF, technique=T_OFF + '; symbolic macro names', ref='DESIGN.md 4/C19'),
+ 'C20': dict(text='Real single-letter and equation-punctuation scans on plain texts given as symbolic strings (any code point, <= 3 chars) and as symbolic choices of <= 4 atoms x accept lists x modes; reference isolated-letter / placeholder scanners independent of re; create_context with unbounded symbolic offset/length.',
+   note='Trusted: CrossHair+z3 (every path validated natively), reference scanners (60 lines). Bound: text length <= 4 atoms.',
+   technique='symbolic execution of the regex scans on symbolic strings / atom choices; native validation', ref='DESIGN.md 4/C20'),
 }
 NOT_YET = 'check not built yet in this session (planned: see DESIGN.md section 4)'
 
